@@ -50,8 +50,19 @@ type ExitError struct {
 	Stderr []byte
 }
 
-func (e *ExitError) Error() string { return fmt.Sprintf("exit status %d", e.Status) }
-func (e *ExitError) ExitCode() int { return e.Status }
+// A negative status stands for death by a signal (os/exec reports ExitCode() -1 then).
+func (e *ExitError) Error() string {
+	if e.Status < 0 {
+		return "signal: killed"
+	}
+	return fmt.Sprintf("exit status %d", e.Status)
+}
+func (e *ExitError) ExitCode() int {
+	if e.Status < 0 {
+		return -1
+	}
+	return e.Status
+}
 
 const simBin = "/sim/bin/"
 
